@@ -3,12 +3,20 @@ ENGINES = [
      "serves_properties": ["C06", "C12"],
      "kind_free_text": "explicit-state search: product automata over graph x pattern, and BFS over operation histories with canonical state hashing whose every transition is replayed on the real implementation"},
     {"name": "E-inputs", "path": "mc/runner.py + mc/world.py + mc/oracles.py",
-     "serves_properties": ["C14"],
+     "serves_properties": ["C03", "C09", "C14"],
      "kind_free_text": "stateless exhaustive enumeration of a bounded input/configuration world, every case executed on the real library, judged by a brute-force reference model written in plain Python"},
 ]
 NOT_APPLICABLE = []
 NOTES = "All checks are bounded exhaustive explorations (model-checking family) of the real code imported from /repo; see DESIGN.md. known_findings.json lists genuine defects (fixed / known)."
 CHECKS = [
+    {"id": "C03", "engine": "E-inputs", "level": "exploration",
+     "technique": "exhaustive enumeration of DAG shapes x all small positive conserving flows x option/ignore/constraint/node-mode variants, real MinFlowDecomp vs brute-force minimum path decomposition (exact int DFS / rational independent-support enumeration)",
+     "text": "Completeness and minimality are for-all statements: every DAG shape up to the bound with every flow of the alphabet is solved by the real class under every lower-bound / greedy / guessed-weights option, with every single (and pair of) ignored arc(s), every sub-path constraint and node-weighted twins, and the count is compared with an independent brute-force minimum; the returned solution is also re-checked arc by arc (C01/C02 predicates).",
+     "note": "Bounded: n<=4 (quick) / n<=5 arcs<=7 (thorough), flows from <=3 paths with weights<=3. Trusted: Fraction arithmetic; Caratheodory argument for float minima."},
+    {"id": "C09", "engine": "E-inputs", "level": "exploration",
+     "technique": "exhaustive enumeration of shapes x ignored subsets x cover types x additional start/end; oracle by explicit-state search over (node, covered-set bitmask); real width / Min* / k* models compared with the brute-force minimum cover",
+     "text": "Width equals the minimum cover for EVERY ignored subset of every shape in the world (exact reachable-set oracle, walks of any length), Min* classes return valid minimum covers over the caller's graph in edge and node mode, k-models are solved iff k >= minimum.",
+     "note": "Bounded: DAG n<=4/5, digraphs n<=4 arcs<=6/8 + named shapes; model runs for ignored sets of size<=1/2. Trusted: oracle min-cover brute force."},
     {"id": "C06", "engine": "E-states", "level": "model_checking",
      "technique": "explicit-state reachability in product automata (graph x pattern progress x flags) over the library's safe sequences; witnesses re-validated, negative verdicts cross-checked by brute-force walk enumeration",
      "text": "Safety quantifies over all covers of X, an unbounded family of walks; the product automaton (node, matched prefix, seen-x) decides it exactly for every shape of the world and every trusted set X (all arcs / singletons / pairs / subsets), every slot pair (incompatibility), every zero- and one-fix of constructed models, DAG safe paths/sequences under 1 and 4 threads, and flow-safe paths against an exact rational cone test. Complete below the bound.",
